@@ -52,6 +52,10 @@ CHECKS["C17"] = ("fvh-blackbox", "enumeration of command forms x connection cont
          "server with a generated password and a pre-loaded dataset; every dispatched command name (from the source) in 8 spellings/arities plus ~70 attack forms, each on a fresh unauthenticated connection in four contexts: exactly one error frame and no other byte, process alive, dataset dump / subscriber counts / replica table unchanged as seen by an authenticated control connection, nothing pushed to the intruder while the control connection writes; generated wrong-password histories must be refused and the exact password authenticates that connection only.",
          "quick tier covers every form in two of the four contexts (all four for the attack forms); thorough is exhaustive over forms x contexts", "3/C17")
 
+CHECKS["C09"] = ("fvh-blackbox", "generated-dataset round trip through a real restart (and through the library), canonical dump differential with clock-bracketed TTL intervals",
+         "generated datasets (six types, sizes at the 6/14/32-bit length-encoding boundaries, binary and marker-equal strings, float-edge scores, u64-edge stream IDs, 16 databases, TTLs shorter and longer than the downtime) are loaded into a real server, dumped, SAVEd, the process is killed -9, kept down for a generated time and restarted on the same directory; the second dump must equal the first, PTTLs must lie in the interval the harness clock allows, keys whose deadline provably passed must be absent. The same datasets go through RdbEngine::save/load in-process at 10x the volume.",
+         "sizes up to 70000 elements / bytes (2^20 and the >= 4 GiB path are out of reach); findings K07/K08 excluded while they reproduce", "3/C09")
+
 checks = []
 for i in ids:
     if i in CHECKS:
